@@ -164,7 +164,8 @@ def subscribe (sv : Server) (sid : Nat) (path : Bytes) (f : Option Filt) : Serve
         -- re-subscription: `ChangeQueryFilterCallback` on every node the path matches, then the new filter
         let sv :=
           if s.subsEnabled && (f.isSome || e.filter.isSome) then
-            (travGlobal sv (pmPut [] fix none) false cbContinue).foldl (fun sv v =>
+            -- (own nodes are skipped unless the session indexes or reflects to itself, as in `GetDataCallback`)
+            (travGlobal sv (pmPut [] fix none) false (getDataCb s)).foldl (fun sv v =>
               match getNode sv v with
               | none => sv
               | some n =>
